@@ -6,6 +6,7 @@
    relabel as a whole, relabelDisjointFrom, Betti invariance. *)
 From Coq Require Import String ZArith Bool Arith List.
 From SV Require Import Names NamesFacts ListFacts Rep Fresh Complex Atomic RepInv Reach RelabelProofs Homology RelabelAll RelabelPhi.
+From SV Require ClosedReach AttrInv.
 Import ListNotations.
 
 Theorem C15_one_rename_carries_structure_partial :
@@ -77,3 +78,19 @@ Theorem C15_dict_renaming_is_get_with_default :
   forall s, In s (simplices r false) -> memo_of st s = um m s.
 Proof. exact relabel_phi_dict. Qed.
 Print Assumptions C15_dict_renaming_is_get_with_default.
+
+(* ATTRIBUTES.  After every history of public operations every simplex has exactly one attribute
+   dictionary and nothing else has one (AttrInv.ainv) ... *)
+Theorem C15_attribute_table_invariant :
+  forall uid ops, AttrInv.ainv (fold_left ClosedReach.pstep ops (empty_rep uid)).
+Proof. exact AttrInv.public_history_ainv. Qed.
+Print Assumptions C15_attribute_table_invariant.
+(* ... and a completed relabel() hands the dictionary of s -- the same object, relabel never touches the
+   heap of dictionaries -- to phi(s), phi being the renaming of C15_relabel_renames_by_the_users_renaming;
+   the invariant is kept, so nothing else acquires a dictionary *)
+Theorem C15_attributes_follow_the_names :
+  forall r rn r' st mapping, AttrInv.ainv r -> rn <> RNone -> relabel r rn = (r', st, Ok mapping) ->
+  AttrInv.ainv r' /\
+  forall s, containsSimplex r s = true -> assoc (memo_of st s) (r_attr r') = assoc s (r_attr r).
+Proof. exact AttrInv.relabel_attrs_follow. Qed.
+Print Assumptions C15_attributes_follow_the_names.
